@@ -306,6 +306,30 @@ def time_family(rnd, quick):
                 c = h1gen.assemble(two, progs, cfg=cfg, sock=sock, steps=list(steps), epilogue=True)
                 c["origin"] = "time/idle"
                 cases.append(c)
+    # (e) a chunked upload answered without reading it, its body arrives after the response and is drained; then the line stays idle
+    for cfg in ({"ka_ms": 1000, "head_ms": 0}, {"ka_ms": 1000, "head_ms": 0, "disc_ms": 1000}):
+        reqs = [{"m": "POST", "framing": {"k": "chunked", "chunks": [20, 20, 20]}}]
+        progs = [{"pend": 0, "read": "none", "keep": "drop", "resp": {"status": 200, "conn": "-", "body": {"k": "bytes", "chunks": [2]}}}]
+        base = h1gen.assemble(reqs, progs, epilogue=False)
+        h = base["gt"][0]["headlen"]
+        steps = [{"seg": h}, {"tick": 50}, {"seg": 30}, {"tick": 50}, {"seg": base["total"] - h - 30}] + ticks(3500)
+        c = h1gen.assemble(reqs, progs, cfg=cfg, steps=steps, epilogue=True)
+        c["origin"] = "time/drained-upload-then-idle"
+        cases.append(c)
+    # (f) the shutdown signal fires while the body of the request in flight is still arriving
+    for framing in ({"k": "cl", "n": 30}, {"k": "chunked", "chunks": [10, 10, 10]}):
+        reqs = [{"m": "POST", "framing": framing}, {"m": "GET"}]
+        progs = [ok_prog(read="all"), ok_prog(read="none")]
+        base = h1gen.assemble(reqs, progs, epilogue=False)
+        h = base["gt"][0]["headlen"]
+        e1 = base["gt"][0]["end"]
+        for sig_at in (1, 2, 3):
+            steps = [{"seg": h}, {"tick": 10}, {"seg": 12}, {"tick": 10}, {"seg": e1 - h - 12}, {"tick": 10}, {"seg": 1000}]
+            steps.insert(sig_at * 2 - 1, {"sig": 1})
+            for cfg in ({"graceful": True}, {"graceful": True, "disc_ms": 1000}):
+                c = h1gen.assemble(reqs, progs, cfg=cfg, steps=steps, epilogue=True)
+                c["origin"] = "time/signal-during-body"
+                cases.append(c)
     # (d) graceful shutdown signal at every point of a 3-request exchange with slow handlers
     three = [{"m": "GET"}, {"m": "POST", "framing": {"k": "cl", "n": 4}}, {"m": "GET"}]
     progs3 = [ok_prog(read="none", pend=1), ok_prog(read="all", pend=1, kind="body-stream"), ok_prog(read="none")]
@@ -385,4 +409,86 @@ def mem_family(rnd, quick):
             c["cfg"] = dict(c["cfg"], qallow=(196608 // len(one)) * 8192 if stuck == "handler" else 0)
             c["origin"] = "mem/pipelined-tiny-requests-stuck-" + stuck
             cases.append(c)
+    return cases
+
+
+# ---------------------------------------------------------------------------------------------
+# further directed families (C03 reuse discipline, C04 progress)
+# ---------------------------------------------------------------------------------------------
+def reuse_family(rnd, quick):
+    """C03: early responses with unread bodies that arrive later, close requested by either side, a following request;
+    error responses against a socket that is not writable when they are first flushed."""
+    cases = []
+    for framing in ({"k": "cl", "n": 40}, {"k": "chunked", "chunks": [10, 30]}, {"k": "chunked", "chunks": [5] * 8}):
+        for rconn, qconn in (("-", "-"), ("close", "-"), ("-", "close"), ("keep-alive", "-")):
+            for keep in ("drop", "handler"):
+                for read in ("none", "n:1"):
+                    reqs = [{"m": "POST", "conn": qconn, "framing": framing}, {"m": "GET"}, {"m": "GET"}]
+                    progs = [{"pend": 0, "read": read, "keep": keep, "resp": {"status": 200, "conn": rconn, "body": {"k": "bytes", "chunks": [4]}}},
+                             ok_prog(read="none"), ok_prog(read="none")]
+                    base = h1gen.assemble(reqs, progs, epilogue=False)
+                    h = base["gt"][0]["headlen"]
+                    end1 = base["gt"][0]["end"]
+                    total = base["total"]
+                    for cuts in ([h, end1 - h, total - end1], [h + 3, 5, end1 - h - 8, total - end1], [h, (end1 - h) // 2, end1 - h - (end1 - h) // 2, 10, total - end1 - 10]):
+                        steps = []
+                        for c in cuts:
+                            steps += [{"seg": c}, {"tick": 10}]
+                        for cfgk in ({}, {"disc_ms": 1000}, {"ka_ms": 0}):
+                            c = h1gen.assemble(reqs, progs, cfg=cfgk, steps=steps, epilogue=True)
+                            c["origin"] = "reuse/early-response"
+                            cases.append(c)
+    # parse / size errors while the socket is not writable at first
+    for bad in ({"k": "hugehead", "pad": 140000}, {"k": "cl+te"}, {"k": "dupcl"}):
+        for budget in (0, 1, 20):
+            reqs = [{"m": "POST", "framing": bad}, {"m": "GET"}]
+            steps = [{"seg": 70000}, {"seg": 70000}, {"tick": 10}, {"seg": 100000}, {"w": 5}, {"tick": 10}, {"w": 30}, {"tick": 10}, {"w": 7}]
+            c = h1gen.assemble(reqs, [ok_prog(), ok_prog()], sock={"budget": budget}, steps=steps, epilogue=True)
+            c["origin"] = "reuse/error-response-blocked-socket"
+            cases.append(c)
+    if quick:
+        cases = rnd.sample(cases, 120)
+    return cases
+
+
+def progress_family(rnd, quick):
+    """C04: bursts larger than the read buffer, upgrade hand-off with a response still buffered, many queued requests behind a slow
+    handler, partial writes of every size."""
+    cases = []
+    # (a) > 128 KiB of pipelined requests readable at once
+    for n, pad in ((420, 330), (900, 150)) if not quick else ((420, 330),):
+        reqs = [{"m": "GET", "head_pad": pad} for _ in range(n)]
+        progs = [ok_prog(read="none", n=3) for _ in range(n)]
+        for probe in (True,):
+            c = h1gen.assemble(reqs, progs, steps=[{"seg": 10 ** 7}], epilogue=True, probe=probe)
+            c["origin"] = "progress/burst-over-read-buffer"
+            cases.append(c)
+    # (b) more than 16 queued requests behind a slow first handler, then everything is released
+    for n in (20, 40):
+        reqs = [{"m": "GET"} for _ in range(n)]
+        progs = [dict(ok_prog(read="none", n=2), pend=1)] + [ok_prog(read="none", n=2) for _ in range(n - 1)]
+        base = h1gen.assemble(reqs, progs, epilogue=False)
+        one = base["gt"][0]["end"]
+        for k in (17, n - 1):
+            steps = [{"seg": one * k}, {"tick": 10}, {"seg": one * (n - k)}, {"tick": 10}, {"h": 1}, {"tick": 10}]
+            c = h1gen.assemble(reqs, progs, steps=steps, epilogue=True, probe=True)
+            c["origin"] = "progress/queue-full"
+            cases.append(c)
+    # (c) an ordinary request pipelined right before an upgrade request (upgrade service configured)
+    for first_body in (2, 3000):
+        for budget in (-1, 0, 10):
+            reqs = [{"m": "GET"}, {"m": "GET", "conn": "upgrade", "extra": [["upgrade", "websocket"]]}]
+            progs = [ok_prog(read="none", n=first_body), {"pend": 0, "read": "none", "keep": "handler", "resp": {"status": 101, "conn": "-", "body": {"k": "empty"}}}]
+            base = h1gen.assemble(reqs, progs, epilogue=False)
+            for steps in ([{"seg": base["total"]}], [{"seg": base["gt"][0]["end"] + 5}, {"tick": 10}, {"seg": base["total"]}]):
+                st = list(steps) + [{"w": 40}, {"tick": 10}, {"w": 4000}]
+                c = h1gen.assemble(reqs, progs, cfg={"upgrade": True}, sock={"budget": budget}, steps=st, epilogue=True, probe=True)
+                c["origin"] = "progress/upgrade-handoff"
+                cases.append(c)
+    # (d) 408 against a socket whose first flush blocks
+    for budget in (0, 3):
+        c = h1gen.assemble([{"m": "GET"}], [ok_prog()], cfg={"head_ms": 1000}, sock={"budget": budget},
+                           steps=[{"seg": 5}] + ticks(1700) + [{"w": 20}, {"tick": 100}, {"w": 500}], epilogue=True, probe=True)
+        c["origin"] = "progress/408-blocked-flush"
+        cases.append(c)
     return cases
